@@ -70,7 +70,7 @@ UNIT = {
             'ensures': [
                 'final(self).wf()',
                 # the new job is at `index`; every other job number holds the job it held (numbers never change)
-                'final(self).jobs_view() == old(self).jobs_view().insert(index, job)',
+                'final(self).jobs_view() =~= old(self).jobs_view().insert(index, job)',
                 'old(self).pids_view().contains_key(job.pid) ==> index == old(self).pids_view()[job.pid]',
                 '!old(self).pids_view().contains_key(job.pid) ==> !old(self).has(index)',
                 'final(self).pids_view().contains_key(job.pid) && final(self).pids_view()[job.pid] == index',
@@ -78,7 +78,9 @@ UNIT = {
                 '!old(self).pids_view().contains_key(job.pid) && old(self).cur() is None ==> final(self).cur() == Some(index)',
                 '!old(self).pids_view().contains_key(job.pid) && old(self).cur() is Some && !old(self).susp(old(self).cur_idx()) && job.state.stopped() ==> final(self).cur() == Some(index) && final(self).prev() == old(self).cur()',
                 '!old(self).pids_view().contains_key(job.pid) && old(self).cur() is Some && (old(self).susp(old(self).cur_idx()) || !job.state.stopped()) ==> final(self).cur() == old(self).cur()',
-            ]}),
+            ],
+            'rewrites': ['match-guard-to-if'],
+            'closures': {0: {'rewrite': 'option-map-to-match'}, 1: {'rewrite': 'option-map-to-match'}}}),
         (JOB, ['impl JobList#1', 'fn remove'], {'ret': 'r',
             'requires': ['old(self).wf()'],
             'ensures': [
@@ -86,12 +88,13 @@ UNIT = {
                 '!old(self).has(index) ==> r is None && final(self).same_as(old(self))',
                 'old(self).has(index) ==> r == Some(old(self).jobs_view()[index])',
                 # every other job number holds the job it held
-                'old(self).has(index) ==> final(self).jobs_view() == old(self).jobs_view().remove(index)',
+                'old(self).has(index) ==> final(self).jobs_view() =~= old(self).jobs_view().remove(index)',
                 # documented: removing the current job promotes the previous job
                 'old(self).has(index) && old(self).cur() == Some(index) && (exists|i: usize| final(self).has(i)) ==> final(self).cur() == old(self).prev()',
                 'old(self).has(index) && old(self).cur() != Some(index) ==> final(self).cur() == old(self).cur()',
                 'old(self).has(index) && old(self).cur() != Some(index) && old(self).prev() != Some(index) ==> final(self).prev() == old(self).prev()',
-            ]}),
+            ],
+            'closures': {0: {'rewrite': 'unwrap-or-else-to-match'}}}),
         (JOB, ['impl JobList#2', 'fn update_status'], {'rewrites': ['bool-or-assign', 'let-chain-last'], 'ret': 'r',
             'requires': ['old(self).wf()'],
             'ensures': [
@@ -99,12 +102,11 @@ UNIT = {
                 'old(self).pids_view().contains_key(pid) ==> r == Some(old(self).pids_view()[pid])',
                 '!old(self).pids_view().contains_key(pid) ==> r is None && final(self).same_as(old(self))',
                 # only that job changes, and only its state, state_changed and expected_state
-                'r is Some ==> final(self).jobs_view() == old(self).jobs_view().insert(r->0, updated_job(old(self).jobs_view()[r->0], state))',
-                'final(self).pids_view() == old(self).pids_view()',
+                'r is Some ==> final(self).jobs_view() =~= old(self).jobs_view().insert(r->0, updated_job(old(self).jobs_view()[r->0], state))',
+                'final(self).pids_view() =~= old(self).pids_view()',
             ]}),
         (JOB, ['enum SetCurrentJobError']),
         (JOB, ['impl JobList#3', 'fn set_current_job'], {'ret': 'r',
-            'requires': ['old(self).wf()'],
             'ensures': [
                 '!old(self).has(index) ==> r == Err::<(), SetCurrentJobError>(SetCurrentJobError::NoSuchJob) && final(self).same_as(old(self))',
                 'old(self).has(index) && !old(self).susp(index) && (exists|i: usize| old(self).susp(i)) ==> r == Err::<(), SetCurrentJobError>(SetCurrentJobError::NotSuspended) && final(self).same_as(old(self))',
@@ -112,7 +114,10 @@ UNIT = {
                 'r is Ok ==> final(self).cur() == Some(index)',
                 'r is Ok && old(self).cur() != Some(index) ==> final(self).prev() == old(self).cur()',
                 'final(self).jobs_view() == old(self).jobs_view() && final(self).pids_view() == old(self).pids_view()',
-                'final(self).wf()',
+                # exact effect on the two selectors (used by `insert`, which calls this on a not yet re-selected table)
+                'r is Ok ==> final(self).cur_idx() == index && final(self).prev_idx() == (if index != old(self).cur_idx() { old(self).cur_idx() } else { old(self).prev_idx() })',
+                'r is Err ==> final(self).same_as(old(self))',
+                'old(self).wf() ==> final(self).wf()',
             ],
             'closures': {0: {'ret': 'b: bool', 'ensures': ['b == p0_t.1.state.stopped()']}},
             }),
